@@ -6,6 +6,8 @@ import (
 	"package-operator.run/internal/packages/verifsim/store"
 )
 
+const annPausedByParent = "package-operator.run/paused-by-parent"
+
 // MonC09: paused means hands-off.
 type MonC09 struct{ BaseMon }
 
@@ -31,6 +33,20 @@ func (m *MonC09) OnReq(w *World, r *Req) {
 		w.Report(Violation{Property: "C09", Rule: "write-while-paused", Sig: shortSite(r.Site) + "/" + r.Verb, Seq: r.Seq,
 			Msg: fmt.Sprintf("pass %d of paused %s %s issued %s on %s", p.ID, p.Ctrl, p.Key, r.Verb, r.Key())})
 		return
+	}
+	if isODKind(p.Ctrl) && isObjectSetKind(r.GVK.Kind) && r.Verb == "update" && r.Succeeded() && r.Before != nil {
+		// unpause-exact: the deployment releases only revisions it had paused itself
+		if store.Str(r.Before, "spec", "lifecycleState") == "Paused" && store.Str(r.After, "spec", "lifecycleState") != "Paused" &&
+			store.Str(r.After, "spec", "lifecycleState") != "Archived" {
+			m.touch()
+			w.Stats.Probe("c09-revision-released")
+			seen, _ := p.LastSeen("mgmt", r.Key(), r.Seq)
+			if store.Annotations(r.Before)[annPausedByParent] != "true" && (seen == nil || store.Annotations(seen)[annPausedByParent] != "true") {
+				w.Report(Violation{Property: "C09", Rule: "unpause-exact", Sig: "not-paused-by-parent/" + shortSite(r.Site), Seq: r.Seq,
+					Msg: fmt.Sprintf("pass %d of %s %s set revision %s from Paused to %q although the deployment had not paused it (no %s annotation)", p.ID, p.Ctrl, p.Key, r.Name, store.Str(r.After, "spec", "lifecycleState"), annPausedByParent)})
+				return
+			}
+		}
 	}
 	if isODKind(p.Ctrl) && isObjectSetKind(r.GVK.Kind) {
 		if b, _ := store.Get(owner, "spec", "paused").(bool); !b {
@@ -135,6 +151,15 @@ func (m *MonC09) OnQuiescent(w *World, epoch int) {
 			}
 		case isODKind(k.Kind):
 			if b, _ := store.Get(o, "spec", "paused").(bool); !b {
+				// unpaused deployment: every revision it had paused is released again
+				if !store.Deleting(o) {
+					for _, s := range setsOfDeployment(w.Mgmt.Objs, o) {
+						if store.Str(s, "spec", "lifecycleState") == "Paused" && store.Annotations(s)[annPausedByParent] == "true" && !store.Deleting(s) {
+							m.touch()
+							w.Report(Violation{Property: "C09", Rule: "propagation", Sig: "revision-not-released", Msg: fmt.Sprintf("at quiescence unpaused %s still has revision %s paused by the deployment (%s annotation present)", k, store.Str(s, "metadata", "name"), annPausedByParent)})
+						}
+					}
+				}
 				continue
 			}
 			m.touch()
